@@ -40,6 +40,11 @@ def build(tier, seed, known):
     for base in (2, 3, 10, 16, 27, 255, 300):
         for d in ((3, 4) if q else (3, 4, 5, 6)):
             add("digits_base%d_d%d" % (base, d), "digits", "n: int", ["0 <= n < %d" % base ** d], ["return digits_ok(n, %d, %d)" % (base, d)], 200, "round trip in base %d" % base, "all n < %d^%d" % (base, d))
+    # boundaries b^k - 1, b^k, b^k + 1 far beyond 2^53 (the property's emphasis); realisation-exhausted over (base, k, j)
+    add("digits_boundaries", "digits", "bi: int, k: int, j: int", ["0 <= bi <= 3", "1 <= k <= %d" % (24 if q else 60), "-1 <= j <= 1"],
+        ["b = [2, 10, 255, 300][pick(bi, 0, 3)]; k = pick(k, 1, %d); j = pick(j, -1, 1)" % (24 if q else 60), "n = b ** k + j", "return digits_ok(n, b, k + 1)"], 600,
+        "round trip and digit range at n = b^k + j", "bases 2, 10, 255, 300; k up to %d; j in -1..1" % (24 if q else 60))
+    add("digits_big_symbolic", "digits", "x: int", ["0 <= x < 255 ** 3"], ["n = 2 ** 70 + x", "return digits_ok(n, 255, 12)"], 300, "round trip for n = 2^70 + x in base 255", "x symbolic below 255^3 (n far beyond 2^53)")
     # the loop-free inductive step of the decoder: one more digit from an arbitrary accumulator value
     add("from_digits_step", "digits", "ds: List[int], x: int, b: int", ["len(ds) <= 3", "2 <= b <= 300"], ["return H.from_base_digits(list(ds) + [x], b) == b * H.from_base_digits(list(ds), b) + x"], 300,
         "from_base_digits(ds + [x]) == b * from_base_digits(ds) + x (positional step; composes to any length)", "digit lists len<=3 with unbounded entries, base symbolic")
@@ -90,6 +95,11 @@ def build(tier, seed, known):
     add("dictionary_code_bijection", "dictionary", "i: int", ["0 <= i < %d" % (400 if q else 3000)],
         ["code = H.to_base_alphabet(i, COMP)", "if len(code) == 1: code = COMP[0] + code", "return len(code) == 2 and H.from_base_alphabet(code, COMP) == i"], 900,
         "dictionary codes: index -> two-character code over the compression alphabet -> index", "indices below %d (realisation-exhausted)" % (400 if q else 3000))
+    NW = 400 if q else 6000
+    add("dictionary_word_codes", "dictionary", "i: int", ["0 <= i < %d" % NW],
+        ["i = pick(i, 0, %d)" % (NW - 1), "w = DICT.contents[i]", "code = outside_tracer(DICT.word_index, w)", "if code == -1: return note('not in the lookup table')",
+         "if DICT.lookup[w] != i: return note('duplicate word: an earlier index wins')", "return len(code) == 2 and outside_tracer(H.uncompress_dict, code) == w"], 900,
+        "every dictionary word: word_index gives a two-character code that uncompress_dict turns back into the word", "the first %d dictionary words (realisation-exhausted)" % NW)
     # twins
     add("twin_digits", "digits", "n: int", ["0 <= n < 1000"], ["return digits_ok(n, 10, 2)"], 60, "reachability twin (digit bound too small)", "", "refuted")
     add("twin_lexer", "lexer", "s: str", ["len(s) <= 2"], ["toks = tokenise('»' + s + '»')", "return len(toks) == 1"], 60, "reachability twin (payload may contain the delimiter)", "", "refuted")
